@@ -103,9 +103,10 @@ type ttxRow struct {
 	cells []byte // the 40 transmitted character codes
 }
 type ttxInstance struct {
-	PTS   int64 // ms
-	Rows  []ttxRow
-	Erase bool // header only: ends the previous instance, produces no cue
+	Charset int   // national option bits of this instance's header
+	PTS     int64 // ms
+	Rows    []ttxRow
+	Erase   bool // header only: ends the previous instance, produces no cue
 }
 type ttxSchedule struct {
 	Magazine, Page int
@@ -119,6 +120,7 @@ type ttxSchedule struct {
 var g0National = map[int]map[byte]string{
 	0: {0x23: "£", 0x24: "$", 0x40: "@", 0x5c: "½", 0x5f: "#", 0x7b: "¼", 0x7d: "¾", 0x7e: "÷"},
 	1: {0x23: "é", 0x24: "ï", 0x40: "à", 0x5b: "ë", 0x5c: "ê", 0x5d: "ù", 0x5e: "î", 0x5f: "#", 0x60: "è", 0x7b: "â", 0x7c: "ô", 0x7d: "û", 0x7e: "ç"},
+	7: {0x23: "£", 0x24: "$", 0x40: "@", 0x5c: "½", 0x5f: "#", 0x7b: "¼", 0x7d: "¾", 0x7e: "÷"}, // no national option: the Latin G0 table as it stands
 	4: {0x23: "#", 0x24: "$", 0x40: "§", 0x5b: "Ä", 0x5c: "Ö", 0x5d: "Ü", 0x5e: "^", 0x5f: "_", 0x60: "°", 0x7b: "ä", 0x7c: "ö", 0x7d: "ü", 0x7e: "ß"},
 }
 var englishAmbiguous = map[byte]bool{0x5b: true, 0x5d: true, 0x5e: true, 0x60: true, 0x7c: true}
@@ -172,7 +174,7 @@ func randTtxRow(r *rng, row, charset int) ttxRow {
 			case 1: // a national option position
 				pos := []byte{0x23, 0x24, 0x40, 0x5b, 0x5c, 0x5d, 0x5e, 0x5f, 0x60, 0x7b, 0x7c, 0x7d, 0x7e}
 				c = pos[r.intn(len(pos))]
-				if charset == 0 && englishAmbiguous[c] {
+				if (charset == 0 || charset == 7) && englishAmbiguous[c] {
 					c = 'e'
 				}
 			default:
@@ -290,6 +292,7 @@ func buildTS(r *rng, sch *ttxSchedule, mux ttxMux) ([]byte, []ttxCue, error) {
 		}
 		o := hopts
 		o.erase = inst.Erase
+		o.charset = inst.Charset
 		units = append(units, headerPacket(sch.Magazine, sch.Page, o))
 		closeCur(inst.PTS)
 		cur = &open{start: inst.PTS}
@@ -366,14 +369,18 @@ func buildTS(r *rng, sch *ttxSchedule, mux ttxMux) ([]byte, []ttxCue, error) {
 }
 
 func randSchedule(r *rng) *ttxSchedule {
-	sch := &ttxSchedule{Magazine: 1 + r.intn(8), Page: r.intn(100), Charset: []int{0, 1, 4}[r.intn(3)], Serial: r.chance(1, 2), PID: uint16(256 + r.intn(20))}
+	sch := &ttxSchedule{Magazine: 1 + r.intn(8), Page: r.intn(100), Charset: []int{0, 1, 4, 7}[r.intn(4)], Serial: r.chance(1, 2), PID: uint16(256 + r.intn(20))}
+	perInstance := r.chance(1, 3)
 	if sch.Magazine == 8 {
 		// magazine 8 is transmitted as 0
 	}
 	n := 1 + r.intn(5)
 	pts := int64(1000 + r.intn(5000))
 	for i := 0; i < n; i++ {
-		inst := ttxInstance{PTS: pts}
+		inst := ttxInstance{PTS: pts, Charset: sch.Charset}
+		if perInstance {
+			inst.Charset = []int{0, 1, 4, 7}[r.intn(4)]
+		}
 		pts += int64(200 + r.intn(4000))
 		if r.chance(1, 5) {
 			inst.Erase = true
@@ -385,7 +392,7 @@ func randSchedule(r *rng) *ttxSchedule {
 					continue
 				}
 				used[row] = true
-				inst.Rows = append(inst.Rows, randTtxRow(r, row, sch.Charset))
+				inst.Rows = append(inst.Rows, randTtxRow(r, row, inst.Charset))
 			}
 		}
 		sch.Instances = append(sch.Instances, inst)
@@ -451,7 +458,7 @@ func init() {
 }
 
 func suiteTeletext(R *runner, r *rng) {
-	R.rule("teletext: ground-truth page schedules (1..5 instances of one page, 1..4 rows at rows 1..24, boxed text over G0 incl. the national option positions of the English/French/German sets, colour and size codes, unboxed junk, erase pages) x multiplexing (1..3 units per PES or one PES per instance, distractor pages in other magazines and a later page of the same magazine, stuffing / non-subtitle / wrong-framing units, X/26 and 8/30 packets, a second PID without teletext descriptor) x reader options (page given or auto-detected, PID given or auto-detected), muxed with the astits muxer and the harness's own Hamming 8/4 / parity / bit-order encoder; oracle: cues (start = PTS of the instance's header, end = PTS of the next header / last PTS, relative to the first PTS; boxed text of the rows in row order split at colour/size codes); non-trivial = at least one cue expected")
+	R.rule("teletext: ground-truth page schedules (1..5 instances of one page, 1..4 rows at rows 1..24, boxed text over G0 incl. the national option positions of the English/French/German sets and of the option-less code 7, the national option changing between instances and between successive reads of the same process, colour and size codes, unboxed junk, erase pages) x multiplexing (1..3 units per PES or one PES per instance, distractor pages in other magazines and a later page of the same magazine, stuffing / non-subtitle / wrong-framing units, X/26 and 8/30 packets, a second PID without teletext descriptor) x reader options (page given or auto-detected, PID given or auto-detected), muxed with the astits muxer and the harness's own Hamming 8/4 / parity / bit-order encoder; oracle: cues (start = PTS of the instance's header, end = PTS of the next header / last PTS, relative to the first PTS; boxed text of the rows in row order split at colour/size codes); non-trivial = at least one cue expected")
 	// self-test of the encoder against the library's decoding tables is implicit: a wrong code yields no text
 	N := 300
 	if R.tier == "thorough" {
